@@ -263,8 +263,18 @@ def rule_E2_pipeline(tree: Tree) -> RuleResult:
         disp = [rc.node_of(c) for c in body_walk(run.node) if isinstance(c, ast.Call) and dotted(c.func) in ("handle_packet", "handle_quic_packet")]
         reach = rc.reachable_from(nid, exc=False, avoid_nodes=set(loop_hdrs[-1:]))
         dsb_ok = under and bool(loop_hdrs) and not any(d in reach for d in disp)
+        # file + DSB combined: ingestion depends on nothing but the block being a DSB
+        other = [src(t2) for t2, tr in rc.facts_at(nid) if not (isinstance(t2, ast.Compare) and dotted(t2.left) == "ts")]
+        dsb_ok = dsb_ok and not other
     r.ob(dsb_ok, Finding("E2b", "main:run:dsb-branch", "DSB payloads (ts == -1) must be parsed into the key list under `if ts == -1` and the "
                                                        "iteration must `continue` before any flow dispatch", run.module.line(run.node)))
+    # sessions keep a reference to the shared, still growing key list (a copy would miss secrets delivered by later DSBs)
+    for mod2, cn in (("session", "Session"), ("quic.quic_session", "QuicSession")):
+        r.instances += 1
+        init = tree.cls(mod2, cn).methods["__init__"]
+        vals = [src(s2.value) for s2 in body_walk(init.node) if isinstance(s2, ast.Assign) and dotted(s2.targets[0]) == "self.keylog"]
+        r.ob(vals == ["keylog"], Finding("E2b", f"{mod2}:{cn}.__init__:shared-keylog",
+                                         f"{cn} must keep the shared key list itself (`self.keylog = keylog`), found {vals}: a snapshot taken at the first packet ignores every DSB that follows", init.module.line(init.node)))
     # late binding: TLS secret lookup only reachable from the finalisation phase (Session.decrypt), never from ingest
     r.instances += 1
     from ..callgraph import CallGraph
@@ -413,6 +423,13 @@ def rule_D7(tree: Tree) -> RuleResult:
                         detail = src(t, 120)
         if not found:
             raise AnchorMissing(f"{qn}: the loop collecting the connection's secrets from the key list was not found")
+        # every line of the shared key list is considered: the scan has no break / return / else-break
+        r.instances += 1
+        kl = next(a for ap in appends for a in ancestors(ap) if isinstance(a, ast.For) and (dotted(a.iter) or "").endswith("keylog"))
+        early = [src(x) for s2 in kl.body for x in ast.walk(s2) if isinstance(x, (ast.Break, ast.Return))]
+        r.ob(not early and dotted(kl.iter) == "self.keylog", Finding("D7", f"{mod}:{qn}:full-scan",
+                                                                     f"{qn} must look at every entry of the shared key list (key-log lines of concurrent connections are interleaved); the scan "
+                                                                     f"iterates `{src(kl.iter)}` and leaves early with {early}", f.module.line(kl)))
         r.sample({"function": qn, "test": detail, "ok": ok})
         r.ob(ok, Finding("D7", key, f"{qn}: a key-log entry must be added to the connection's secrets only under "
                                     f"`entry.client_random == <this connection's client random>` compared on normalised case "
